@@ -149,6 +149,20 @@ def pumped(n):
     }
 
 
+def pumped_large(n):
+    """inputs of some tens of kilobytes for the clause "time stays modest": the pumped families (without the two that hit finding D42) plus long runs
+    of spaces and tabs that reach the output verbatim (code, trailing whitespace)"""
+    d = {k: v for k, v in pumped(n).items() if k not in ("stars", "underscores")}
+    d["code_spaces"] = "```\n" + " " * (40 * n) + "x\n" + "\t" * (10 * n) + "y\n\n```\n\nafter\n"
+    d["indented_code_spaces"] = "para\n\n    " + " " * (40 * n) + "x\n\nafter\n"
+    d["trailing_spaces"] = "\n".join("line" + " " * (n // 10) for _ in range(40)) + "\n"
+    d["table_wide_cells"] = "| a | b |\n|---|---|\n| " + "x" * (10 * n) + " | `" + "y" * (10 * n) + "` |\n"
+    return d
+
+
+MODEST_CPU_S = 4.0      # the slowest family of the unchanged tree needs about 0.5 s at this size
+
+
 def code_blank_docs():
     """code blocks holding runs of 1..4 empty lines, in every container: no blank code line may come out with trailing spaces"""
     out = []
@@ -263,6 +277,27 @@ def run(tier: str) -> int:
     elif w["outcome"] != "return":
         chk.violation("ReturnsWithoutRaising", dict(input="'*' * 800 + 'a' + '*' * 800", outcome=w["outcome"], error=w["err"]))
     chk.notes["pumped_cpu_seconds"] = growth
+    # ---- "time stays modest": some tens of kilobytes of every family within a fixed CPU budget ----
+    large = 1600 if tier == "quick" else 3200
+    ljobs = [(f"{name}@{large}", text, 4 + 6 * 5) for name, text in sorted(pumped_large(large).items())]
+    modest = {}
+    for name, cpu, r in pmap(_timed, ljobs, procs=8, chunksize=1):
+        chk.evaluations += 1
+        chk.nontriv(("large", name))
+        if cpu is None:
+            chk.violation("ReturnsInTime(large)", dict(family=name, outcome=r["outcome"], error=r["err"]))
+            continue
+        modest[name] = round(cpu, 3)
+        if cpu > MODEST_CPU_S * (large / 1600):
+            chk.violation("StaysModest", dict(family=name, cpu_s=round(cpu, 2), budget_s=MODEST_CPU_S * (large / 1600), input_chars=len(dict(pumped_large(large))[name.split("@")[0]])))
+    chk.notes["large_cpu_seconds"] = modest
+    # witness of the open finding D70 (a long run of spaces / tabs inside a paragraph: quadratic in the dependency's table pattern)
+    wname, wcpu, wr = _timed(("para_spaces", "a" + " " * 24000 + "b\n", 10))
+    chk.evaluations += 1
+    if (wcpu is None or wcpu > MODEST_CPU_S) and "D70" in chk.open_findings:
+        chk.known_finding("D70", dict(input="'a' + ' ' * 24000 + 'b'", cpu_s=wcpu, outcome=wr["outcome"]))
+    elif wcpu is None or wcpu > MODEST_CPU_S:
+        chk.violation("StaysModest", dict(family="para_spaces", cpu_s=wcpu, outcome=wr["outcome"]))
     for id_ in list(metas)[:: max(1, len(metas) // 5)][:5]:
         chk.sample({k: metas[id_][k] for k in ("input", "opts", "outcome", "cpu_s", "stages")})
     chk.exhaustive = False
